@@ -83,9 +83,16 @@ Definition observed_accept (o : list value) : option bool :=
   | _ => None
   end.
 
+(* the cookies found in the client's store (last observed value) *)
+Definition observed_stored (o : list value) : option (list bytes) :=
+  match o with
+  | [_; _; _; _; _; _; _; _; VL l] => getBs l
+  | _ => None
+  end.
+
 Definition glue_recv (dir : Z) (hs : list value) (b key reqid : bytes) (tab : list value) (o : list value) : option verdict :=
-  match honests_of hs, table_of tab, observed_accept o with
-  | Some hs, Some t, Some acc =>
+  match honests_of hs, table_of tab, observed_accept o, observed_stored o with
+  | Some hs, Some t, Some acc, Some stored =>
       let d := decode_packet b in
       let a := match d with
                | Ok p => if dir =? 0 then process_request (open_tab t) b key p
@@ -96,8 +103,9 @@ Definition glue_recv (dir : Z) (hs : list value) (b key reqid : bytes) (tab : li
                                 && (if dir =? 0 then true else bytes_eqb reqid (p_uid p))
                              then open_known t key (p_nonce p) (Some (firstn (p_pos p) b)) (p_ct p) else true
                    | _ => true end in
-      Some (functional (VZ 1 :: recv_values d a) (vbool known :: o) (C10_packet_ok hs b key dir reqid acc))
-  | _, _, _ => None
+      Some (functional (VZ 1 :: recv_values d a) (vbool known :: o)
+              (C10_packet_ok hs b key dir reqid acc && (if dir =? 1 then C10_reject_clean acc stored else true)))
+  | _, _, _, _ => None
   end.
 
 Definition sc_values (o : outcome server_cookie) : list value :=
@@ -203,11 +211,12 @@ Definition glue_C10 (k : string) (a o : list value) : option verdict :=
                           | Ok ec => [VZ 0; VZ (ec_id ec); VB (ec_nonce ec); VB (ec_ct ec); VB (ec_encode ec)]
                           | _ => [VZ (code_of r); VZ 0; VB []; VB []; VB []] end) o true)
     | _ => None end
-  else if is k "srv.ip" then
-    (* real IP listener: args honest packets, datagram, valid server keys [id key], AEAD answers;
-       observed: replied, and whether the reply verified at the client *)
+  else if is k "srv.ip" || is k "srv.scion" then
+    (* the real IP / SCION listener: args honest packets, datagram (NTP/NTS payload), valid server
+       keys [id key], AEAD answers; observed: replied (-1: the listener stopped answering), whether
+       the reply verified at the client, whether every re-issued cookie opened to the session's keys *)
     match a, o with
-    | [VL hs; VB b; VL keys; VL tab], [VZ replied; VZ verified] =>
+    | [VL hs; VB b; VL keys; VL tab], [VZ replied; VZ verified; VZ cookies] =>
         match honests_of hs, table_of tab with
         | Some hs, Some t =>
             let getkey := fun id => match find (fun kv => match kv with VL [VZ i; VB _] => i =? id | _ => false end) keys with
@@ -215,7 +224,10 @@ Definition glue_C10 (k : string) (a o : list value) : option verdict :=
                                     | _ => None end in
             let r := server_nts (open_tab t) getkey b in
             let e := match r with Ok _ => 1 | _ => 0 end in
-            Some (functional [VZ e; VZ e] o (C10_listener_ok hs b (negb (replied =? 0)) (negb (verified =? 0))))
+            let rb := negb (replied =? 0) in
+            Some (functional [VZ e; VZ e; VZ e] o
+                    (negb (replied <? 0) && C10_listener_ok hs b rb (negb (verified =? 0)) &&
+                     C10_reissue_ok rb (negb (cookies =? 0))))
         | _, _ => None end
     | _, _ => None end
   else if is k "ke.export" then
